@@ -96,8 +96,30 @@ func newAssumptions() *Assumptions {
 	fn("solar-geometry", solar, sZ|sP, nil, "hermes.CalculateDayLenght.3", "hermes.CalculateDayLenght.4", "hermes.CalculateDayLenght.5")
 	fn("solar-geometry", solar, sAll, iv(-23.5, 23.5), "hermes.CalculateDayLenght.6")
 	// ---- ordered soil hydraulic parameters (C15) as sums of positive gaps
-	m := func(idx []Poly) Poly { return PAtom(gapAtom("wp", "pos", idx)) }
-	n := func(idx []Poly) Poly { return PAtom(gapAtom("fc-wp", "pos", idx)) }
+	// a layer with a CONSTANT index at or beyond the smallest admissible profile (two layers) may lie below the
+	// profile bottom, where every parameter is 0: its gaps are only known to be non-negative (code that addresses
+	// fixed layers — "the 30–60 cm block" — must test for them itself)
+	inEveryProfile := func(idx []Poly) bool {
+		if len(idx) != 1 {
+			return true
+		}
+		if c, ok := idx[0].ConstInt(); ok && c >= 2 {
+			return false
+		}
+		return true
+	}
+	m := func(idx []Poly) Poly {
+		if !inEveryProfile(idx) {
+			return PAtom(gapAtom("wp", "nonneg", idx))
+		}
+		return PAtom(gapAtom("wp", "pos", idx))
+	}
+	n := func(idx []Poly) Poly {
+		if !inEveryProfile(idx) {
+			return PAtom(gapAtom("fc-wp", "nonneg", idx))
+		}
+		return PAtom(gapAtom("fc-wp", "pos", idx))
+	}
 	gw := func(idx []Poly) Poly { return PAtom(gapAtom("fcgw-fc", "nonneg", idx)) }
 	s := func(idx []Poly) Poly { return PAtom(gapAtom("pv-fc", "nonneg", idx)) }
 	as.gapOf["GlobalVarsMain.WMIN"] = m
